@@ -4,6 +4,8 @@ import (
 	"fmt"
 	"sort"
 	"strings"
+
+	"github.com/facebookincubator/dns/dnsrocks/dnsdata/rdb"
 )
 
 func (w *world) evidence(fams []family, b *bfs) {
@@ -27,7 +29,7 @@ func (w *world) evidence(fams []family, b *bfs) {
 	r.Set("transitions", cnt.Applies)
 	r.Set("traces_validated_against_impl", cnt.Applies)
 	r.Set("evaluations", cnt.Evals)
-	r.Set("distinct_nontrivial", cnt.SingleNontrivial+cnt.FaultyNontrivial)
+	r.Set("distinct_nontrivial", cnt.SingleNontrivial+cnt.FaultyNontrivial+cnt.InputNontrivial)
 	r.Set("data_files", len(w.states))
 	var fs []string
 	for _, f := range fams {
@@ -53,6 +55,19 @@ func (w *world) evidence(fams []family, b *bfs) {
 	r.Set("every_faulty_line_at_every_position_for_small_pairs", w.p.allFaults)
 	r.Set("walk_applies", cnt.Walk)
 	r.Set("serial_skew_applies", cnt.Skew)
+	r.Set("serial_skew_max_source_lines_of_A", w.p.skewMaxLines)
+	r.Set("input_cases", cnt.Input)
+	r.Set("input_cases_with_a_valid_line_delivered_first", cnt.InputNontrivial)
+	r.Set("input_cases_must_fail", cnt.InputMustFail)
+	r.Set("input_cases_must_succeed", cnt.InputMustOK)
+	r.Set("input_cases_all_or_nothing", cnt.InputEither)
+	r.Set("input_cases_all_or_nothing_that_the_implementation_accepted", cnt.InputEitherAccepted)
+	r.Set("input_failures_through_the_file_entry_point", cnt.StrictFaulty)
+	r.Set("bulk_files", len(bulkFiles))
+	r.Set("bulk_valid_transitions", cnt.Bulk)
+	r.Set("bulk_faulty_and_input_cases", cnt.BulkFaulty)
+	r.Set("scanner_line_limit_bytes", scanLimit)
+	r.Set("rdb_DefaultBatchSize_in_this_build", rdb.DefaultBatchSize)
 	r.Set("full_raw_iterator_dumps", cnt.FullDumps)
 	r.Set("sessions", cnt.Sessions)
 	r.Set("session_copies_replaced_after_a_failing_case", cnt.Resets)
@@ -74,28 +89,52 @@ func (w *world) evidence(fams []family, b *bfs) {
 	}
 	r.Set("alphabet", al)
 	strictRule := fmt.Sprintf("pairs with <=%d source lines in A and B together", w.p.strictMax)
-	faultRule := "the first faulty line of every class before the first and after the last valid line"
+	faultRule := "the first faulty line of every class at every position of the diff"
+	cutRule := "for every line: in its middle, when it is complete but its newline is not, and after its newline"
+	fileRule := "the pairs of the empty file and the first one-line file"
+	skewRule := fmt.Sprintf("every pure-deletion diff (B sub-multiset of A, A of <=%d source lines)", w.p.skewMaxLines)
 	if w.p.allFaults {
-		faultRule = "every faulty line at every position"
+		faultRule = "every faulty line at every position of the diff"
+		cutRule = "after every byte"
+		fileRule = "every pair of the empty file and a one-line file"
+		skewRule = "every pure-deletion diff (B sub-multiset of A; bulk files included)"
+	}
+	var bn []string
+	for _, bf := range bulkFiles {
+		bn = append(bn, bulkName(bf))
 	}
 	r.Set("rule", fmt.Sprintf("data files = all multisets of source lines in the families [%s] of the %d-line alphabet, preprocessed by the real Codec.Preprocess (files with equal preprocessed form merged); "+
 		"for every ordered pair of files (A,B) (incl. A=A, empty diff) x v1/v2 keys: the line diff A->B in every order when n!<=%d, else %d selected orders (identity, reversal, +before-, -before+, evenly spread lexicographic ranks). "+
 		"For %s order 0 is applied as the tool does (fresh copy of rdb.Compile(A), rdb.ApplyDiff(file, dir) = open/apply/close) and the closed store is dumped with a raw iterator; all other cases run through one rdb.NewUpdater session per (layout, A) on a copy of compile(A): (*RDB).ApplyDiff, read back every key of A and B with (*RDB).ForEach, re-install compile(A)'s exact content (verified), full raw-iterator dump == compile(A) when the session is closed. "+
 		"Oracle: content == dnsfix.DumpRDB(rdb.Compile(B)) as key -> multiset of values. "+
-		"Faulty transitions (same session) = diff A->B plus one '-' line whose record is absent after the diff (absent key / absent value under a live key / one deletion too many; every preprocessed line of the one-line files plus two strangers) or one malformed line (bad op, unknown record type, op only, unquotable location): for pairs of <=1-line files %s, for every other pair one undeletable and one malformed line after the last valid line (line rotating with the pair); must return an error and leave the exact content (value order included) unchanged. "+
-		"BFS: states are exact store contents (value order included), confined to files made of the lines that can share a key (a1 a2 soa dot soa2; only those can give a value order a fresh compile does not give); contents that differ from every fresh compile are rebuilt by replay and taken through the diff to every other file of that universe in every order, to depth %d. "+
+		"Faulty transitions (same session) = diff A->B plus one '-' line whose record is absent after the diff (absent key / absent value under a live key / one deletion too many; every preprocessed line of the one-line files plus two strangers) or one malformed line (bad op, unknown record type, op only, unquotable location, a data line without its +/- prefix, NUL / text / a line behind a byte order mark): for pairs of <=1-line files %s, for every other pair one undeletable and one malformed line after the last valid line (line rotating with the pair); must return an error and leave the exact content (value order included) unchanged. "+
+		"Input cases (same session; the diff A->B in merge order): MUST FAIL and leave the exact content unchanged = the reader breaks with a non-EOF error after k bytes (k: %s; the error in the next Read and, for k>0, together with the last bytes), a '+xxx...' line (malformed at any length) of %d / %d bytes at every position and of %d / %d bytes after the last line (%d bytes is the longest line a bufio.Scanner delivers), the bytes 'garbage' / NUL / '+' after the last newline; MUST SUCCEED with compile(B) = one byte per Read, last bytes together with io.EOF; ALL OR NOTHING (success with compile(B), or an error with the exact content unchanged) = CRLF line ends, no final newline, an empty line / a lone CR / a '#' line at every position, a '#' line of %d / %d bytes before the first and after the last line; all of these for pairs of <=1-line files, for every other pair only 'reader breaks after the last byte' and 'over-long line after the last line'. "+
+		"The same through the file entry point for %s: the diff path does not exist / is a directory / the file ends in an over-long line; fresh copy, rdb.ApplyDiff(path, dir), full dump == compile(A). "+
+		"Bulk files [%s] (150, 75, 75 lines; two values under one key and a second key): paired with each other and the empty file, diffs of 25-150 lines (2-7 KB: the scanner's 4096-byte buffer is used up and refilled; more records than rdb.DefaultBatchSize, which this build scales down to %d, so the batch outgrows its allocation) in merge order, reversal, +before-, -before+, lexicographic ranks and round robin over the groups of equal lines (operations on one key always separated by operations on the other); an undeletable / malformed line in the middle and at the end, reader breaking in the middle (after the first 4096 bytes) and at the end, over-long line in the middle and at the end, one-byte reads, CRLF. "+
+		"BFS: states are exact store contents (value order included), confined to files made of the lines that can share a key (a1 a2 soa dot soa2; only those can give a value order a fresh compile does not give; bulk files excluded); contents that differ from every fresh compile are rebuilt by replay and taken through the diff to every other file of that universe in every order, to depth %d. "+
 		"Walks: one physical store taken through every sequence of %d files (empty and one-line files), open/apply/close per step, to depth %d. "+
-		"Serial skew: every pure-deletion diff (B sub-multiset of A) applied through rdb.ApplyDiff(file) with a diff file whose mtime (= the serial ApplyDiff derives) differs from the compile serial, as happens in the field; must succeed and give compile(B). "+
-		"states = distinct exact store contents seen (both layouts); transitions = real ApplyDiff executions; evaluations = content comparisons; non-trivial = valid transitions whose diff is non-empty plus faulty ones whose diff has valid lines besides the faulty one",
-		strings.Join(fs, "; "), len(alphabet), w.p.maxOrders, w.p.maxOrders, strictRule, faultRule, w.p.bfsDepth, len(w.p.walkLines)+1, w.p.walkDepth))
+		"Serial skew: %s applied through rdb.ApplyDiff(file) with a diff file whose mtime (= the serial ApplyDiff derives) differs from the compile serial, as happens in the field; must succeed and give compile(B). "+
+		"states = distinct exact store contents seen (both layouts); transitions = real ApplyDiff executions; evaluations = content comparisons; non-trivial = valid transitions whose diff is non-empty, faulty ones whose diff has valid lines besides the faulty one, input cases in which a complete valid line is delivered before the trouble",
+		strings.Join(fs, "; "), len(alphabet), w.p.maxOrders, w.p.maxOrders, strictRule, faultRule,
+		cutRule, scanLimit, scanLimit+4464, scanLimit-1, 2*scanLimit+1, scanLimit-1, scanLimit-1, scanLimit,
+		fileRule, strings.Join(bn, " "), rdb.DefaultBatchSize,
+		w.p.bfsDepth, len(w.p.walkLines)+1, w.p.walkDepth, skewRule))
 	r.Assume = []string{
 		"both files of a diff are preprocessed with the same serial, and - except in the serial-skew phase - compile and ApplyDiff use that serial ('.' lines take that serial, Z lines carry explicit serials after preprocessing)",
 		fmt.Sprintf("diffs with more than %d orders are tried in %d selected orders, not all n! (a declared bound, like the depth)", w.p.maxOrders, w.p.maxOrders),
 		"RocksDB itself (cgo) is executed, not modelled; within a session the store is observed through (*RDB).ForEach on the keys of both files and re-installed with (*RDB).Add/Del (verified by reading back), the whole store is dumped with a raw iterator once per session and once per fresh-copy transition",
 		"only the alphabet's record types (+ Z . % !), one subnet map; ApplyDiff exists for RocksDB only",
+		fmt.Sprintf("the harness is built against a copy of package dnsdata/rdb in which the constant DefaultBatchSize is %d instead of 100000 (harness/c08/OVERLAY, `setconst`; `instrument` only routes the package's sync/chan/go constructs through shims that delegate to the real primitives, there is no scheduler in this check): the constant sizes the initial capacity of a batch's two slices (10 MB cleared per ApplyDiff otherwise) and the compiler's default batch size (never reached by these files); nothing else in ApplyDiff depends on it", rdb.DefaultBatchSize),
+		"failures of the store underneath ApplyDiff (RocksDB read or write errors in GetMulti / ExecuteBatch) are not injected: only failures of the diff and of its reader",
+		"an io.Reader error other than EOF counts as 'the diff cannot be applied' (the rest of the diff is unknown), including when it comes after the last byte of an otherwise complete diff",
 	}
 	// samples: a few real transitions, deterministic
-	n := len(w.states)
+	n := 0
+	for _, st := range w.states {
+		if !st.bulk {
+			n++ // bulk files come last
+		}
+	}
 	for _, i := range []int{1, n + 2, n*n/3 + 1, n*n/2 + 3, n*n - 2} {
 		a, b := (i/n)%n, i%n
 		d := lineDiff(w.states[a].pre, w.states[b].pre)
